@@ -42,10 +42,6 @@ func mkrec(r row) core.Record {
 	return rb.Trim().Build()
 }
 
-type readTran interface {
-	GetRecord(off uint64) core.Record
-}
-
 // findRow returns the offset of the row equal to r by scanning index 0 inside
 // the transaction (so it sees the transaction's own changes); 0 if absent.
 func (im *impl) findRow(ut *db19.UpdateTran, t int, r row) uint64 {
